@@ -22,11 +22,9 @@ pub fn dequeue_from_return_stack<T: InterpreterTrait>(interpreter: &mut T) {
 pub fn stash_function_return_value<T: InterpreterTrait>(interpreter: &mut T, function_name: &Name) {
     debug_assert!(!function_name.is_bare());
     let name = function_name.clone();
-    let v = interpreter
-        .context_mut()
-        .variables_mut()
-        .get_or_create(name)
-        .clone();
+    // take the value out of the variable: a STATIC function keeps its variables,
+    // but its next call must not return this value again if it does not set one
+    let v = interpreter.context_mut().variables_mut().take(name);
     interpreter.set_function_result(v);
 }
 
